@@ -101,4 +101,31 @@ def logStack (ops : List BOp) : List (List KV) := ops.foldl stepLog [[]]
 /-- all writes that are still live after `ops`, newest first -/
 def liveWrites (ops : List BOp) : List KV := (logStack ops).flatten
 
+/-- staging depth after `ops`, relative to the depth `d` before them; `none` if some release/cleanup would
+close a level that was opened before `ops` -/
+def netDepth : Nat → List BOp → Option Nat
+  | d, [] => some d
+  | d, .staging :: r => netDepth (d + 1) r
+  | 0, .release :: _ => none
+  | 0, .cleanup :: _ => none
+  | d + 1, .release :: r => netDepth d r
+  | d + 1, .cleanup :: r => netDepth d r
+  | d, .set _ _ :: r => netDepth d r
+  | d, .del _ :: r => netDepth d r
+
+/-- `ops` opens and closes only its own staging levels -/
+def Bracketed (ops : List BOp) : Prop := netDepth 0 ops = some 0
+
+instance (ops : List BOp) : Decidable (Bracketed ops) := by unfold Bracketed; exact inferInstance
+
+def BOp.isWrite : BOp → Bool
+  | .set _ _ => true
+  | .del _ => true
+  | _ => false
+
+/-- only sets and deletes -/
+def WritesOnly (ops : List BOp) : Prop := ∀ op ∈ ops, op.isWrite = true
+
+instance (ops : List BOp) : Decidable (WritesOnly ops) := by unfold WritesOnly; exact inferInstance
+
 end CGV.Overlay
